@@ -3,7 +3,13 @@
 Direct calls of component_definition.NewProperty on structured tags and on arbitrary byte strings, scans of
 runtime-built structs through the real tag-scan processors (prop shorthand, Required default) and real app.Run
 starts of structs carrying generated tags, all compared in Coq with Model/TagGrammar.v (the functions the C19
-theorems are about) and judged by the property oracle of Corr/Check_C19.v."""
+theorems are about) and judged by the property oracle of Corr/Check_C19.v.
+
+INDEPENDENCE of parses (case field "again" = 1 | 2, a share of every kind): the text is parsed, the observation kept, the
+driver scribbles over everything reachable from the result (items of every value slice overwritten in place, slices
+reordered / appended to, Property.SetArg / AddArg with junk on existing and new names, Required=false among them), and the
+SAME text is parsed again into a fresh Property - in the same or in another field / holder / registry / App context.  Both
+observations must equal the model's (pure) parse of the text, and the second must equal the first."""
 import glob
 import json
 import os
@@ -211,9 +217,11 @@ def gen_probes(rng, tag, struct):
 KIND_NO = {"parse": 0, "scan": 1, "scan_prop": 2, "e2e_wire_missing": 3, "e2e_wire_present": 4, "e2e_value": 5}
 
 
-def mk_case(kind, tag, struct=None, probes=None, stream=""):
+def mk_case(kind, tag, struct=None, probes=None, stream="", again=0):
     c = {"kind": kind, "tag": tag.hex(), "stream": stream, "probes": [
         {"name": p["name"].hex(), "wants": [w.hex() for w in p["wants"]]} for p in (probes or [])]}
+    if again:
+        c["again"] = again
     if struct:
         c["intent"] = {"value": struct["value"].hex(), "args": [[n.hex(), [v.hex() for v in vs]] for n, vs in struct["args"]]}
     return c
@@ -235,7 +243,7 @@ def gen_cases(ctx, n_direct, n_scan, n_e2e):
             kind = "parse"
         else:
             kind = rng.choice(["scan", "scan_prop", "scan_prop"])
-        c = mk_case(kind, tag, struct, gen_probes(rng, tag, struct), stream)
+        c = mk_case(kind, tag, struct, gen_probes(rng, tag, struct), stream, gen_again(rng, 0.2))
         if kind == "scan":
             c["key"] = rng.choice(["value", "wire"])
         cases.append(c)
@@ -243,13 +251,18 @@ def gen_cases(ctx, n_direct, n_scan, n_e2e):
         kind = rng.choice(["e2e_wire_missing", "e2e_wire_missing", "e2e_wire_present", "e2e_value", "e2e_value"])
         struct = gen_structured(rng, True, e2e={"e2e_wire_missing": "wire", "e2e_wire_present": "wire_type",
                                                 "e2e_value": "value"}[kind])
-        cases.append(mk_case(kind, struct["tag"], struct, [], "e2e"))
+        cases.append(mk_case(kind, struct["tag"], struct, [], "e2e", gen_again(rng, 0.4)))
     return cases
+
+
+def gen_again(rng, share):
+    """0 = one parse; 1 = parse, scribble over the result, parse again; 2 = the same across contexts"""
+    return rng.choice([1, 2]) if rng.random() < share else 0
 
 
 def to_driver(c, i):
     k = c["kind"]
-    d = {"id": i, "tag": c["tag"], "probes": c["probes"]}
+    d = {"id": i, "tag": c["tag"], "probes": c["probes"], "again": c.get("again", 0)}
     if k == "parse":
         d["kind"] = "parse"
     elif k in ("scan", "scan_prop"):
@@ -283,12 +296,9 @@ def s_kv(kv):
     return s_bytes(kv[0]) + s_list(kv[1], s_bytes)
 
 
-def serialise(c, o):
-    """one case + the implementation's observation as the byte stream Check_C19.p_case decodes"""
-    if len(o["probes"]) != len(c["probes"]) and not o["panic"]:
-        raise RuntimeError("driver returned %d probes for %d" % (len(o["probes"]), len(c["probes"])))
+def s_parse_obs(c, o):
+    """what one parse reported (Check_C19.p_pobs without the leading nprops)"""
     out = bytearray()
-    out += s_num(KIND_NO[c["kind"]]) + s_bytes(c["tag"]) + s_num(1 if o["panic"] else 0) + s_num(o["nprops"])
     out += s_bytes(o["tagval"]) + s_num(1 if o["tagstr"] == o["tagval"] else 0)
     out += s_list([(a["k"], a["v"]) for a in o["args"]], s_kv) + s_num(1 if o["required"] else 0)
     pr = list(zip(c["probes"], o["probes"]))
@@ -296,9 +306,28 @@ def serialise(c, o):
     for p, po in pr:
         out += s_bytes(p["name"]) + s_list(p["wants"], s_bytes) + s_num(int(po["fpanic"])) + s_num(int(po["found"]))
         out += s_list(po["vals"], s_bytes) + s_num(int(po["hpanic"])) + s_num(int(po["has"])) + s_num(int(po["hasw"]))
+    return bytes(out)
+
+
+def serialise(c, o):
+    """one case + the implementation's observation as the byte stream Check_C19.p_case decodes"""
+    if len(o["probes"]) != len(c["probes"]) and not o["panic"]:
+        raise RuntimeError("driver returned %d probes for %d" % (len(o["probes"]), len(c["probes"])))
+    out = bytearray()
+    out += s_num(KIND_NO[c["kind"]]) + s_bytes(c["tag"]) + s_num(1 if o["panic"] else 0) + s_num(o["nprops"])
+    out += s_parse_obs(c, o)
     out += s_num(int(o["failed"])) + s_num(int(o["fieldnil"])) + s_bytes(o["fieldstr"])
     if "intent" in c:
         out += s_num(1) + s_bytes(c["intent"]["value"]) + s_list(c["intent"]["args"], s_kv)
+    else:
+        out += s_num(0)
+    # independence of parses: how the case was run and what the parse BEFORE the scribbling reported
+    out += s_num(c.get("again", 0))
+    f = o.get("first")
+    if f:
+        if len(f["probes"]) != len(c["probes"]):
+            raise RuntimeError("driver returned %d probes for %d (first parse)" % (len(f["probes"]), len(c["probes"])))
+        out += s_num(1) + s_num(f["nprops"]) + s_parse_obs(c, f)
     else:
         out += s_num(0)
     return bytes(out)
@@ -330,6 +359,9 @@ def evaluate(ctx, binp, cases, tag, shard=None):
         assert o["id"] == i
         obs = {k: o[k] for k in ("panic", "nprops", "tagval", "tagstr", "args", "required", "probes", "failed", "fieldnil",
                                  "fieldstr")}
+        if o.get("first"):
+            obs["first_parse_before_scribbling"] = {k: o["first"][k] for k in ("nprops", "tagval", "tagstr", "args", "required",
+                                                                              "probes")}
         by_id[i] = {"case": c, "tag_text": bytes.fromhex(c["tag"]).decode("latin1"), "observed": obs}
         terms.append(pack(serialise(c, o)))
     # canary: a deliberately falsified observation (value part of ",x=1" reported as "!") must come back as a
@@ -339,10 +371,20 @@ def evaluate(ctx, binp, cases, tag, shard=None):
                 "required": True, "probes": [], "failed": False, "fieldnil": False, "fieldstr": ""}
     cid = len(terms)
     terms.append(pack(serialise(canary_c, canary_o)))
+    # second canary: a repeated parse whose SECOND observation is right while the first one showed another item: must be
+    # reported both ways (the first observation is compared with the model, and the two with each other)
+    canary2_c = mk_case("parse", b",x=1", {"value": b"", "args": [(b"x", [b"1"])]}, [], "canary", again=1)
+    good = {"nprops": 1, "tagval": "", "tagstr": "", "args": [{"k": b"X".hex(), "v": [b"1".hex()]}], "required": True, "probes": []}
+    canary2_o = dict(good, panic="", failed=False, fieldnil=False, fieldstr="",
+                     first=dict(good, args=[{"k": b"X".hex(), "v": [b"2".hex()]}]))
+    cid2 = len(terms)
+    terms.append(pack(serialise(canary2_c, canary2_o)))
     M, V, NT = coq_eval_local(ctx, "cases_c19_" + tag, terms, shard)
-    if cid not in M or cid not in V:
-        raise vlib.CoqEvalError("cases_c19_" + tag, "canary case was not reported (M=%s V=%s)" % (cid in M, cid in V))
-    return by_id, [i for i in M if i != cid], [i for i in V if i != cid], [i for i in NT if i != cid]
+    for x in (cid, cid2):
+        if x not in M or x not in V:
+            raise vlib.CoqEvalError("cases_c19_" + tag, "canary case %d was not reported (M=%s V=%s)" % (x - cid, x in M, x in V))
+    return (by_id, [i for i in M if i not in (cid, cid2)], [i for i in V if i not in (cid, cid2)],
+            [i for i in NT if i not in (cid, cid2)])
 
 
 def coq_eval_local(ctx, basename, blobs, shard=None):
@@ -435,6 +477,29 @@ def corpus_cases():
         s = {"value": val, "args": [(name, vals)], "bare": [False]}
         s["tag"] = render(val, s["args"])
         cs.append(mk_case(kind, s["tag"], s, [], "corpus"))
+    # independence of parses: the same text parsed again after the first result was scribbled over, in every kind
+    for again in (1, 2):
+        for val, args in [(b"", [(b"qualifier", [b"Blue"])]), (b"x", [(b"a", [b"C", b"A", b"B"])]),
+                          (b"", [(b"required", [b"false"])]), (b"nm", [(b"required", [b"true"]), (b"q", [b"{a b}", b"z"])])]:
+            s = {"value": val, "args": args, "bare": [False] * len(args)}
+            s["tag"] = render(val, args)
+            pr = [{"name": flip_first(args[0][0]), "wants": [args[0][1][0]]}]
+            cs.append(mk_case("parse", s["tag"], s, pr, "corpus", again))
+            c = mk_case("scan", s["tag"], s, pr, "corpus", again)
+            c["key"] = "wire"
+            cs.append(c)
+            cs.append(mk_case("scan_prop", s["tag"], s, pr, "corpus", again))
+        cs.append(mk_case("parse", b"plain", None, [], "corpus", again))
+        for kind, val, name, vals in [("e2e_wire_missing", b"", b"required", [b"false"]),
+                                      ("e2e_wire_missing", b"", b"required", [b"true"]),
+                                      ("e2e_wire_missing", b"zzname", b"x", [b"1"]),
+                                      ("e2e_wire_present", b"", b"required", [b"true"]),
+                                      ("e2e_value", b"", b"required", [b"false"]),
+                                      ("e2e_value", b"", b"required", [b"true"]),
+                                      ("e2e_value", b"wabc", b"x", [b"{1,2}"])]:
+            s = {"value": val, "args": [(name, vals)], "bare": [False]}
+            s["tag"] = render(val, s["args"])
+            cs.append(mk_case(kind, s["tag"], s, [], "corpus", again))
     d = os.path.join(vlib.VERIF, "corpus", "C19")
     for f in sorted(glob.glob(os.path.join(d, "*.json"))):
         j = json.load(open(f))
@@ -461,7 +526,10 @@ def distribution(cases, by_id, d=None):
         d = {"kinds": {}, "streams": {}, "tag_len_buckets": {}, "observed_args": {}, "intended_args": {},
              "with_brackets": 0, "unbalanced_brackets": 0, "non_ascii_bytes": 0, "invalid_utf8": 0,
              "with_duplicate_names": 0, "bracketed_value_with_separator_inside": 0, "required_false_observed": 0,
-             "probes": 0, "probes_first_letter_flipped_found": 0, "empty_name_segments": 0, "implementation_panics": 0}
+             "probes": 0, "probes_first_letter_flipped_found": 0, "empty_name_segments": 0, "implementation_panics": 0,
+             "parsed_again_after_scribbling": {"cases": 0, "by_kind_and_mode(1 same context, 2 other context)": {},
+                                               "with_at_least_one_argument_to_overwrite": 0,
+                                               "first_observations_compared": 0}}
 
     def inc(m, k):
         m[str(k)] = m.get(str(k), 0) + 1
@@ -507,6 +575,15 @@ def distribution(cases, by_id, d=None):
         d["probes_first_letter_flipped_found"] += sum(1 for p in o["probes"] if p["found"])
         if o["panic"]:
             d["implementation_panics"] += 1
+        if c.get("again"):
+            pa = d["parsed_again_after_scribbling"]
+            pa["cases"] += 1
+            inc(pa["by_kind_and_mode(1 same context, 2 other context)"], "%s/%d" % (c["kind"], c["again"]))
+            first = o.get("first_parse_before_scribbling")
+            if first:
+                pa["first_observations_compared"] += 1
+            if (first and first["args"]) or ("intent" in c and c["intent"]["args"]):
+                pa["with_at_least_one_argument_to_overwrite"] += 1
     return d
 
 
@@ -527,7 +604,7 @@ def shrink_candidates(c):
         for vv, aa in variants:
             s = {"value": vv, "args": aa, "bare": [False] * len(aa)}
             s["tag"] = render(vv, aa)
-            n = mk_case(c["kind"], s["tag"], s, [], c.get("stream", ""))
+            n = mk_case(c["kind"], s["tag"], s, [], c.get("stream", ""), c.get("again", 0))
             n["probes"] = c["probes"]
             if "key" in c:
                 n["key"] = c["key"]
@@ -541,6 +618,8 @@ def shrink_candidates(c):
             out.append(n)
         if c["probes"]:
             out.append(dict(c, probes=[]))
+    if c.get("again") == 2:
+        out.append(dict(c, again=1))
     return out
 
 
@@ -588,9 +667,9 @@ def run(ctx):
         by_id, m, v, nt = evaluate(ctx, binp, cases, tag)
         dist = distribution(cases, by_id, dist)
         for i, c in enumerate(cases):
-            seen.add(hash((c["kind"], c.get("key", ""), c["tag"])))
+            seen.add(hash((c["kind"], c.get("key", ""), c["tag"], c.get("again", 0))))
         for i in nt:
-            seen_nt.add(hash((cases[i]["kind"], cases[i].get("key", ""), cases[i]["tag"])))
+            seen_nt.add(hash((cases[i]["kind"], cases[i].get("key", ""), cases[i]["tag"], cases[i].get("again", 0))))
         for i in set(m) | set(v):
             keep[total + i] = by_id[i]
         M += [total + i for i in m]
@@ -639,8 +718,10 @@ def run(ctx):
                 "(prop shorthand rewrite, Required default) and real app.Run starts; streams: structured (value x 0-5 arguments x "
                 "values x bracket groups x duplicates x case flips, with the generator's intended structure as oracle), and "
                 "arbitrary bytes (bracket/separator-heavy, tiny alphabet, mutated structured tags, hostile names with non-ASCII / "
-                "invalid UTF-8 / empty first bytes, uniform bytes); non-trivial = the tag contains a ','; distinct = distinct "
-                "(kind, key, tag bytes)",
+                "invalid UTF-8 / empty first bytes, uniform bytes); a share of every kind is run as a REPEATED parse (again = 1 | 2): "
+                "parse, record, scribble over everything reachable from the result (value slices in place, SetArg / AddArg), "
+                "parse the same text again in the same / another context - both observations against the model, the second "
+                "against the first; non-trivial = the tag contains a ','; distinct = distinct (kind, key, tag bytes, again)",
         "samples": samples,
         "traces_validated_against_impl": e2e_total,
         "input_distribution": dist,
@@ -653,6 +734,10 @@ def run(ctx):
                                     "separators are the one-byte literals \",\" \" \" \"=\" the container passes to strings2",
                                     "argument lookups with an empty name (API misuse: Find(\"\") panics in formatArgType) are "
                                     "compared with the model but not judged by the oracle",
+                                    "independence of parses is exercised within one driver process (direct parses, scans on "
+                                    "fresh registries, Apps started one after the other); the scribbling uses only what a caller "
+                                    "can reach through the exported API: the slices handed out by Args().ForEach / Find and "
+                                    "Property.SetArg / AddArg",
                                     "the app.Run stream includes optional by-name points without a target "
                                     "(wire:\"zzname,required=false\"): on snapshot fc3b059 app.Run panicked there (nil *Meta "
                                     "left in prop.Injects), repaired in /repo by 22935a9; corpus/C19/byname_optional_missing.json "
